@@ -612,6 +612,22 @@ theorem inv_srcInto {s : Store} (h : Inv s) (l a b : Nat) (src : Src) (hl : l < 
     simp only [srcOk, List.all_eq_true, Bool.and_eq_true, decide_eq_true_eq] at hv
     exact ⟨ok_of_rebindOk h (hv t ht).1, (hv t ht).2⟩
 
+/-- a one-shot iterable assigned to a slice: the trees are imported, then the slice is deleted -/
+theorem inv_sliceGen {s : Store} (h : Inv s) (l a b : Nat) (ts : List Nat) (hl : l < s.nTl)
+    (hok : ∀ t, t ∈ ts → ((s.tree t).ns = (s.tl l).ns ∨ ∀ l', t ∉ (s.tl l').trees) ∧ t < s.nTree) :
+    Inv (setTrees (importTrees s (s.tl l).ns .migrate ts) l (splice ((importTrees s (s.tl l).ns .migrate ts).tl l).trees a b [])) := by
+  obtain ⟨i, f, e, o⟩ := inv_importTrees (s.tl l).ns .migrate ts h (fun t ht => (hok t ht).1)
+  apply inv_setTrees i l _ (by rw [f.nTl]; exact hl)
+  intro t ht
+  rw [f.tl, f.nTree]
+  rcases mem_splice ht with ht | ht
+  · rw [f.tl] at ht
+    refine ⟨?_, h.treeLt l t ht⟩
+    rcases o t with o | o
+    · rw [o]; exact h.listOk l t ht
+    · exact o
+  · simp at ht
+
 /-- one Newick statement after the other read into namespace `n` -/
 theorem grows_requireLastList (n : Nat) (cs : Bool) : ∀ (ls : List String) (s : Store),
     Grows s (requireLastList s n cs ls).1 ∧ ∀ x, x ∈ (requireLastList s n cs ls).2 → x ∈ mem (requireLastList s n cs ls).1 n
@@ -702,7 +718,7 @@ def covered : Op → Bool
   | .add _ (.trees _) => false
   | .lclone _ _ | .mclone _ _ | .lmig _ _ _ | .lrec _ _ | .mmig _ _ _ | .mrec _ _ | .dsunify _ _ | .dsread _ _ _ _ => false
   | .readx _ _ _ | .tlget _ _ _ | .tget _ _ _ | .mget _ _ _ _ | .chain _ => false
-  | .tassign _ _ _ | .lassign _ _ _ | .massign _ _ _ | .mcomb _ _ _ | .tpurge _ | .lpurge _ | .mpurge _ => false
+  | .tassign _ _ _ | .lassign _ _ _ | .massign _ _ _ | .mcomb _ _ _ | .tpurge _ | .lpurge _ | .mpurge _ | .setslicegen _ _ _ _ => false
   | _ => true
 
 /-- clauses (a),(c) hold in the empty world -/
@@ -1034,6 +1050,7 @@ theorem closed_step_partial (s : Store) (op : Op) (h : Inv s) (hv : valid s op =
   | lassign l n a => simp [covered] at hc
   | massign m n a => simp [covered] at hc
   | mcomb m m2 a => simp [covered] at hc
+  | setslicegen l a b ts => simp [covered] at hc
   | tpurge t => simp [covered] at hc
   | lpurge l => simp [covered] at hc
   | mpurge m => simp [covered] at hc
@@ -2432,6 +2449,14 @@ theorem closed_step (s : Store) (op : Op) (h : Inv s) (hv : valid s op = true) :
           · exact h.matOk m x hx
           · rw [← e]; exact h.matOk m2 x hx
       · exact h
+    | setslicegen l a b ts =>
+      simp only [inRange, decide_eq_true_eq] at hr
+      simp only [owner] at ho
+      simp only [step]
+      apply inv_sliceGen h l a b ts hr
+      intro t ht
+      simp only [srcOk, List.all_eq_true, Bool.and_eq_true, decide_eq_true_eq] at ho
+      exact ⟨ok_of_rebindOk h (ho t ht).1, (ho t ht).2⟩
     | tpurge t => simp [owner] at ho
     | lpurge l => simp [owner] at ho
     | mpurge m => simp [owner] at ho
@@ -3709,6 +3734,7 @@ theorem fresh_step (s : Store) (op : Op) (h : FrAll s) : FrAll (step s op).1 := 
         · exact h.mat m x hx
         · exact h.mat m2 x hx
     · exact h
+  | setslicegen l a b ts => simp only [step]; exact frAll_setTrees (frAll_importTrees _ _ ts h) _ _
   | tpurge t => simp only [step]; exact frAll_purge h _ _
   | lpurge l => simp only [step]; exact frAll_purge h _ _
   | mpurge m => simp only [step]; exact frAll_purge h _ _
@@ -4315,5 +4341,134 @@ example := purge_closed demoP 0 Aux.demoP_inv
   (by intro m _; simp [demoP])
 
 example : mem (step demoP (.lpurge 0)).1 0 = [1] := by decide +kernel
+
+/-! ## wave 2: caller-supplied memo under `unify_taxa_by_label=False`, slice assignment of any length / from a generator, unification after an
+out-of-band migration -/
+
+section W2
+open Pass
+
+/-- NON-UNIFYING PASS WITH A NON-EMPTY, CALLER-SUPPLIED MEMO.  Whatever memo is handed in (`taxon_mapping_memo=…`), as long as it is one
+that non-unifying passes into `n` can have produced since a moment with `b` allocated taxa (`PassF`: its entries send taxa that were
+foreign then to taxa created since, members of `n` with the same label, injectively — `passF_start` for the empty memo, and every pass
+re-establishes it): members of `n` at that moment keep their taxon, a foreign taxon goes to what the FINAL memo holds for it (a taxon
+created since `b`, so an entry already in the memo is reused, not duplicated), and two nodes share a taxon afterwards iff they did before. -/
+theorem mapTaxa_fresh_memo_spec {b : Nat} {M0 : List Nat} {L0 : Nat → String} (s : Store) (n : Nat) (memo : Memo) (xs : List (Option Nat))
+    (P : PassF b M0 L0 n s memo) (hx : ∀ x, some x ∈ xs → x < b) :
+    PassF b M0 L0 n (mapTaxa s n false memo xs).1 (mapTaxa s n false memo xs).2.1
+    ∧ related (fun x y => (x ∈ M0 → y = x) ∧ (x ∉ M0 → b ≤ y ∧ y ∉ M0 ∧ y ∈ mem (mapTaxa s n false memo xs).1 n
+          ∧ (mapTaxa s n false memo xs).1.label y = L0 x) ∧ (∀ z, memoGet memo x = some z → y = z))
+        xs (mapTaxa s n false memo xs).2.2
+    ∧ (∀ (i j x x' y y' : Nat), xs[i]? = some (some x) → xs[j]? = some (some x') →
+        (mapTaxa s n false memo xs).2.2[i]? = some (some y) → (mapTaxa s n false memo xs).2.2[j]? = some (some y') → (y = y' ↔ x = x')) := by
+  obtain ⟨P', r, g⟩ := mapTaxa_fresh n xs s memo P hx
+  refine ⟨P', ?_, ?_⟩
+  · refine Aux.related_mono _ _ ?_ r
+    intro x y _ hr
+    obtain ⟨a, c⟩ := passF_item P' hr
+    refine ⟨a, c, ?_⟩
+    intro z hz
+    have hM0 : x ∉ M0 := (P.memo x z hz).2.1
+    have := hr.2 hM0
+    rw [g x z hz] at this
+    exact (Option.some.inj this).symm
+  · intro i j x x' y y' h1 h2 h3 h4
+    exact passF_pair P' (hx x (List.mem_of_getElem? h1)) (hx x' (List.mem_of_getElem? h2))
+      (Aux.related_get _ _ i x y r h1 h3) (Aux.related_get _ _ j x' y' r h2 h4)
+
+/-- ... for two trees migrated one after the other with ONE caller-supplied memo (a `chain` of two `Tree.migrate_taxon_namespace(n,
+unify_taxa_by_label=False, taxon_mapping_memo=memo)` calls): the second pass meets the NON-EMPTY memo the first one left, and two nodes
+of the two trees share a taxon afterwards exactly when they shared one before -/
+theorem chain_fresh_spec (s : Store) (t1 t2 n : Nat) (hne : t1 ≠ t2) (hfr : Fresh.FrAll s) :
+    (chain s [] [⟨.tree, t1, n, false⟩, ⟨.tree, t2, n, false⟩]).2 = true
+    ∧ ∀ (i j x x' y y' : Nat), (s.tree t1).taxa[i]? = some (some x) → (s.tree t2).taxa[j]? = some (some x') →
+        ((chain s [] [⟨.tree, t1, n, false⟩, ⟨.tree, t2, n, false⟩]).1.tree t1).taxa[i]? = some (some y) →
+        ((chain s [] [⟨.tree, t1, n, false⟩, ⟨.tree, t2, n, false⟩]).1.tree t2).taxa[j]? = some (some y') → (y = y' ↔ x = x') := by
+  have e : chain s [] [⟨.tree, t1, n, false⟩, ⟨.tree, t2, n, false⟩] = ((migrateTrees s n false [] [t1, t2]).1, true) := by
+    simp [chain, migrateTrees]
+  rw [e]
+  refine ⟨rfl, ?_⟩
+  obtain ⟨P, r, _, _⟩ := Aux.migrateTrees_fresh n [t1, t2] s [] (by simp [hne]) (passF_start s n (hfr.ns n))
+    (fun t _ x hx => hfr.tree t x hx)
+  intro i j x x' y y' h1 h2 h3 h4
+  exact passF_pair P (hfr.tree t1 x (List.mem_of_getElem? h1)) (hfr.tree t2 x' (List.mem_of_getElem? h2))
+    (Aux.related_get _ _ i x y (r t1 (by simp)).2 h1 h3) (Aux.related_get _ _ j x' y' (r t2 (by simp)).2 h2 h4)
+
+end W2
+
+/-- SLICE ASSIGNMENT `tl[a:b] = trees` FOR ANY BOUNDS AND ANY OPERAND LENGTH (longer or shorter than the slice, empty, `b < a`, bounds past
+the end): inside the ownership domain the list becomes `old[:a] + trees + old[max a b:]`, EVERY tree of the operand — not only the first
+`b - a` of them — is bound to the list's namespace, and the world stays closed -/
+theorem setslice_any_length (s : Store) (l a b : Nat) (ts : List Nat) (h : Aux.Inv s) (hv : valid s (.setslice l a b (.trees ts)) = true) :
+    Aux.Inv (stepG s (.setslice l a b (.trees ts))).1
+    ∧ ((stepG s (.setslice l a b (.trees ts))).1.tl l).trees = (s.tl l).trees.take a ++ ts ++ (s.tl l).trees.drop (max a b)
+    ∧ ∀ t, t ∈ ts → ((stepG s (.setslice l a b (.trees ts))).1.tree t).ns = (s.tl l).ns := by
+  have i' := closed_stepG s _ h hv
+  have hv' := hv
+  simp only [valid, Bool.and_eq_true, owner] at hv'
+  obtain ⟨_, ho⟩ := hv'
+  have hok : ∀ t, t ∈ ts → (s.tree t).ns = (s.tl l).ns ∨ ∀ l', t ∉ (s.tl l').trees := by
+    intro t ht
+    simp only [srcOk, List.all_eq_true, Bool.and_eq_true, decide_eq_true_eq] at ho
+    exact Aux.ok_of_rebindOk h (ho t ht).1
+  obtain ⟨_, f, e, _⟩ := Aux.inv_importTrees (s.tl l).ns .migrate ts h hok
+  refine ⟨i', ?_, ?_⟩
+  · rw [stepG_of_valid hv]
+    simp only [step, srcInto, spliceT, setTrees, upd, if_true, splice]
+    rw [f.tl]
+  · intro t ht
+    rw [stepG_of_valid hv]
+    simp only [step, srcInto, spliceT, setTrees]
+    exact e t ht
+
+/-- ... and with a ONE-SHOT iterable (a generator) as the operand: the trees are still imported into the list's namespace, but the
+assignment finds the iterable exhausted — the slice is deleted and none of the trees is inserted; the world stays closed -/
+theorem setslice_generator (s : Store) (l a b : Nat) (ts : List Nat) (h : Aux.Inv s) (hv : valid s (.setslicegen l a b ts) = true) :
+    Aux.Inv (stepG s (.setslicegen l a b ts)).1
+    ∧ ((stepG s (.setslicegen l a b ts)).1.tl l).trees = (s.tl l).trees.take a ++ (s.tl l).trees.drop (max a b)
+    ∧ ∀ t, t ∈ ts → ((stepG s (.setslicegen l a b ts)).1.tree t).ns = (s.tl l).ns := by
+  have i' := closed_stepG s _ h hv
+  have hv' := hv
+  simp only [valid, Bool.and_eq_true, owner] at hv'
+  obtain ⟨_, ho⟩ := hv'
+  have hok : ∀ t, t ∈ ts → (s.tree t).ns = (s.tl l).ns ∨ ∀ l', t ∉ (s.tl l').trees := by
+    intro t ht
+    simp only [srcOk, List.all_eq_true, Bool.and_eq_true, decide_eq_true_eq] at ho
+    exact Aux.ok_of_rebindOk h (ho t ht).1
+  obtain ⟨_, f, e, _⟩ := Aux.inv_importTrees (s.tl l).ns .migrate ts h hok
+  refine ⟨i', ?_, ?_⟩
+  · rw [stepG_of_valid hv]
+    simp only [step, setTrees, upd, if_true, splice, List.append_nil]
+    rw [f.tl]
+  · intro t ht
+    rw [stepG_of_valid hv]
+    simp only [step, setTrees]
+    exact e t ht
+
+/-- the world of the examples below: a list (0, namespace 0) holding one tree, two free trees of namespace 1 -/
+def demoS : Store := run init [.ns false ["A", "b"], .ns true ["a", "A", "C"], .tree 1 [some 2, some 0], .tree 1 [some 1, some 0],
+  .tree 0 [some 1], .tlist (some 0), .append 0 2 .migrate]
+
+/-- a LONGER operand (two trees into a slice of one) ... -/
+example := setslice_any_length demoS 0 0 1 [0, 1] (closed_reachable _ init Aux.inv_init (by decide +kernel)) (by decide +kernel)
+example : ((stepG demoS (.setslice 0 0 1 (.trees [0, 1]))).1.tl 0).trees = [0, 1]
+    ∧ ((stepG demoS (.setslice 0 0 1 (.trees [0, 1]))).1.tree 1).ns = 0 := by decide +kernel
+/-- ... a SHORTER one (nothing into a slice of one), and a generator -/
+example := setslice_any_length demoS 0 0 1 [] (closed_reachable _ init Aux.inv_init (by decide +kernel)) (by decide +kernel)
+example := setslice_generator demoS 0 0 1 [0, 1] (closed_reachable _ init Aux.inv_init (by decide +kernel)) (by decide +kernel)
+example : ((stepG demoS (.setslicegen 0 0 1 [0, 1])).1.tl 0).trees = [] ∧ ((stepG demoS (.setslicegen 0 0 1 [0, 1])).1.tree 1).ns = 0 := by
+  decide +kernel
+example := chain_fresh_spec demoS 0 1 0 (by decide) (fresh_reachable _ init Fresh.frAll_init)
+
+/-- `DataSet.unify_taxon_namespaces` AFTER AN OUT-OF-BAND MIGRATION: the data set's own namespace list still names namespace 1 only, while its
+tree list was migrated to namespace 2 behind its back; the history is inside `valid`, so `closed_from_init` applies - and the data set ends
+attached to ONE namespace (the new one, 3) that its list is bound to -/
+example : validHist init [.ns false ["A", "b"], .ns true ["a", "A", "C"], .ns false [], .tree 1 [some 2, some 0], .tlist (some 1),
+    .append 0 0 .migrate, .ds, .dsaddL 0 0, .lmig 0 2 true, .dsunify 0 none] = true := by decide +kernel
+example : ((run init [.ns false ["A", "b"], .ns true ["a", "A", "C"], .ns false [], .tree 1 [some 2, some 0], .tlist (some 1),
+    .append 0 0 .migrate, .ds, .dsaddL 0 0, .lmig 0 2 true, .dsunify 0 none]).ds 0).att = some 3
+  ∧ ((run init [.ns false ["A", "b"], .ns true ["a", "A", "C"], .ns false [], .tree 1 [some 2, some 0], .tlist (some 1),
+    .append 0 0 .migrate, .ds, .dsaddL 0 0, .lmig 0 2 true, .dsunify 0 none]).tl 0).ns = 3 := by decide +kernel
+
 
 end DendroModel.C11
